@@ -520,7 +520,7 @@ impl<const M: usize> Drv<M> {
             }
         } else if kind < 92 {
             let how = self.rng.below(14);
-            let ty = self.rng.below(5);
+            let ty = self.rng.below(8);
             let cap = self.b().chunk_capacity();
             macro_rules! go {
                 ($t:ty) => {{
@@ -542,7 +542,11 @@ impl<const M: usize> Drv<M> {
                 1 => go!(u16),
                 2 => go!(u64),
                 3 => go!(u128),
-                _ => go!(A32),
+                4 => go!(A32),
+                // alignment 1 but more than one byte; several words
+                5 => go!([u8; 3]),
+                6 => go!([u8; 24]),
+                _ => go!([u64; 5]),
             }
         } else {
             // alloc_str / try_alloc_str
@@ -1070,7 +1074,7 @@ fn run_history<const M: usize>(plan: &Plan) {
     let fp = d.rng.below(10);
     // constructor
     let how = d.rng.below(4);
-    let cap: usize = match d.rng.below(14) {
+    let cap: usize = match d.rng.below(15) {
         0 => 0,
         1 => 1,
         2 => 15,
@@ -1083,6 +1087,7 @@ fn run_history<const M: usize>(plan: &Plan) {
         9 => 4033,
         10 => (1usize << (3 + d.rng.below(16))) + d.rng.usize_below(3) - 1,
         11 => isize::MAX as usize - d.rng.usize_below(40),
+        12 => usize::MAX - d.rng.usize_below(20),
         _ => d.rng.usize_below(1 << 20),
     };
     if fp == 0 {
